@@ -65,7 +65,7 @@ IsArea(t) == t \in {"continental plate", "oceanic plate", "mantle layer"}
 IsLine(t) == t \in {"subducting plate", "fault"}
 
 (*************************** geometry catalogues (km) ***********************)
-Polys == << << <<0, 0>>, <<800, 0>>, <<800, 600>>, <<0, 600>> >>,
+Polys == << << <<50, 40>>, <<850, 40>>, <<850, 640>>, <<50, 640>> >>,
             << <<300, 200>>, <<1200, 300>>, <<1100, 900>>, <<600, 1000>>, <<200, 700>> >>,
             << <<500, -200>>, <<1500, -200>>, <<1500, 800>>, <<1000, 300>>, <<500, 800>> >>,       \* concave
             << <<900, 500>>, <<1300, 500>>, <<1100, 900>> >>,
@@ -88,8 +88,10 @@ PlumeGeoms == << [c |-> << <<700, 400>>, <<700, 400>> >>, d |-> <<60 * Km, 400 *
 (* depth ranges: <<min, max>>, each a number or AtPoints (a value-at-points surface, built from the polygon) *)
 AtPoints == -1
 DepthKinds == << <<0, 150 * Km>>, <<30 * Km, 400 * Km>>, <<AtPoints, 250 * Km>>, <<0, AtPoints>>, <<AtPoints, AtPoints>> >>
-SurfaceOf(s, g, base, bump) ==      \* corners at base, the polygon's third corner and an inside point at base + bump
-  << <<base>>, <<base + bump, <<XYg(s, Polys[g][3]), XYg(s, PolyInside[g])>>>> >>     \* (no listed point has a zero coordinate: known finding of C11)
+(* corners at base, the polygon's first corner at `first` (the unique extreme of the surface), its third corner and an
+   inside point at base + bump; no listed point has a zero coordinate (known finding of C11) *)
+SurfaceOf(s, g, base, bump, first) ==
+  << <<base>>, <<first, <<XYg(s, Polys[g][1])>>>>, <<base + bump, <<XYg(s, Polys[g][3]), XYg(s, PolyInside[g])>>>> >>
 
 (*************************** model catalogues *******************************)
 Ops == <<"replace", "add", "subtract">>
@@ -184,8 +186,8 @@ Models(cat, idx) == [i \in 1..Len(idx) |-> cat[idx[i]]]
 Render(f, a, k) ==
   LET t == a.type
       dkk == DepthKinds[a.dk]
-      lo == IF dkk[1] = AtPoints THEN SurfaceOf(f, a.g, 20 * Km, 40 * Km) ELSE dkk[1]
-      hi == IF dkk[2] = AtPoints THEN SurfaceOf(f, a.g, 300 * Km, -120 * Km) ELSE dkk[2]
+      lo == IF dkk[1] = AtPoints THEN SurfaceOf(f, a.g, 20 * Km, 40 * Km, 5 * Km) ELSE dkk[1]
+      hi == IF dkk[2] = AtPoints THEN SurfaceOf(f, a.g, 300 * Km, -120 * Km, 340 * Km) ELSE dkk[2]
       common == ("model" :> t) @@ ("name" :> "f" \o ToString(k)) @@ ("min depth" :> lo) @@ ("max depth" :> hi)
                 @@ ("temperature models" :> Models(TModels(f, t), a.tm)) @@ ("composition models" :> Models(CModels(f, t), a.cm))
                 @@ ("grains models" :> Models(GModels(f, t), a.gm)) @@ ("velocity models" :> Models(VModels(f, t), a.vm))
